@@ -101,6 +101,7 @@ def _func_of(dump, b):
 
 SIG_BRANCH_TO_END_LABEL = "patch-branches-to-an-end-of-block-label-edge-leads-to-the-block-start"
 SIG_TWIN_CALL_DELETED = "deleted-call-shares-its-return-site-with-the-call-in-front-of-it"
+SIG_RETARGET_CALL = "retarget-symbol-uses-of-a-call-target-leaves-the-return-edges-of-both-functions"
 SIG_TAIL_THEN_INSERT = "code-inserted-at-the-end-of-a-block-left-without-successor-earlier-in-the-batch-misses-the-fallthrough"
 
 
@@ -141,6 +142,18 @@ def c03_known(case, o, issue):
         return None
     text = emodify.flat_of(case)
     label_func = {y["name"]: d.get("func") for d in text if d["kind"] == "code" for y in d["syms"]}
+    # (0) retarget_symbol_uses(A, B) where a call names A: the call edge moves, the return edges of A's and B's
+    #     functions do not (the C18 finding, seen through C03's return clause)
+    if case.get("retargets"):
+        olds = {a for a, _ in case["retargets"]}
+        called = {i[1] for d in text if d["kind"] == "code" for i in d["insns"] if i[0] == "call"}
+        for e in case.get("edits", []):
+            for line in e.get("asm", "").splitlines():
+                t = line.split()
+                if len(t) == 2 and t[0] == "call":
+                    called.add(t[1])
+        if olds & called:
+            return SIG_RETARGET_CALL
     # (1) a patch containing a return is inserted into a function: its return edges are copied from
     #     the function's other returns as they are at that moment (none: a proxy; stale when the
     #     same batch adds, removes or moves calls of that function)
@@ -240,6 +253,22 @@ class Campaign:
                     ctx.violation("C01:request-set-refused:%s" % (o["err"].split(":")[0],),
                                   "apply() raised %s at %s (%s) on a non-overlapping request set" % (o["err"], o["err_where"], o["err_line"]), case)
             return
+        for r, exc in o.get("refusals", []):
+            ctx.count("refused-registration:%s" % (exc or "ACCEPTED"))
+        if any(exc is None for _, exc in o.get("refusals", [])):
+            ctx.notes.append("a registration expected to be refused was accepted: %r" % ([r for r, x in o["refusals"] if x is None][:1],))
+            return
+        if o["edits"] is None and o.get("refusals") and len(o["rec"].records) > len(case.get("edits", [])):
+            # more insert/delete calls than accepted requests: a registration that was refused is carried out anyway
+            ctx.count("refused-request-carried-out")
+            if self.facet == "C01":
+                ids = {o["B"].id0[r["block"]] for r, _ in o["refusals"]}
+                extra = [x["do"] for x in o["rec"].records if x["do"]["block"] in ids]
+                ctx.violation("C01:refused-request-carried-out",
+                              "%d requests were accepted, %d operations carried out; among them %s on the block of the refused registration %r"
+                              % (len(case.get("edits", [])), len(o["rec"].records), [(d["kind"], d["offset"], d.get("length", d.get("repl"))) for d in extra][:3],
+                                 o["refusals"][0][0]), case)
+                return
         if o["edits"] is None:
             ctx.count("unpaired")
             ctx.mismatch("the recorded insert/delete calls cannot be paired with the registered requests", case)
@@ -451,12 +480,19 @@ class Campaign:
 def run(ctx, facet, quick, thorough, with_corr=True):
     camp = Campaign(ctx, facet, with_corr)
     for c in load_corpus():
+        if c.get("retargets") and facet != "C03":
+            continue            # the listing of the other facets has no retarget_symbol_uses
         ctx.count("corpus")
         camp.add(c)
     n = ctx.budget(quick, thorough)
     for k in range(n):
         # C03: mostly listings whose control flow is defined; every sixth one may run off its end (closure clause only)
-        camp.add(emodify.gen_case(ctx.rng, cfg_domain=(facet == "C03" and k % 6 != 0)))
+        case = emodify.gen_case(ctx.rng, cfg_domain=(facet == "C03" and k % 6 != 0))
+        if facet == "C03" and k % 5 == 1:
+            # retarget_symbol_uses in the same context: the uses of one code label are pointed at another code label
+            # or an external symbol (the edited listing then names the new symbol)
+            emodify.add_retargets(ctx.rng, case)
+        camp.add(case)
     camp.flush()
 
 
